@@ -139,6 +139,10 @@ func checkC07(c *Ctx) {
 	c07Siblings(c)
 	c07Names(c)
 	c07ServerInputs(c, "R07e")
+	r.Rule("R07n", "the set of types both TS plugins declare is closed under every edge a printed property type can follow: plain, repeated and map-valued enum fields, map value messages, nested message fields", 6)
+	c07DeclaredTypesClosed(c, "R07n")
+	r.Rule("R07o", "the flatten and discriminated-oneof encoders remove the wrapper key whenever the field is set (shared with C06/R06n): a key the TypeScript union does not declare never reaches the wire", 2)
+	wrapperKeyAlwaysRemoved(c, "R07o")
 	r.Rule("R07h", "every JSON arm of the Go server's response encoder consults the message's own codec first: the declared (annotated) TypeScript type is what is on the wire whatever the request's content type (shared with C06/R06f)", 2)
 	codecPrecedence(c, "R07h", false)
 	c07HandlerPropertyNames(c)
@@ -597,5 +601,77 @@ func c07RootUnwrapPredicate(c *Ctx) {
 		}
 		r.Check(b.B == sc.want, "R07l", key, pos,
 			fmt.Sprintf("IsRootUnwrap answers %v for a message with a %s: the TS client and server then declare the RPC's result as %s while the Go server writes %s", b.B, sc.name, map[bool]string{true: "the bare value", false: "the wrapper object"}[b.B], map[bool]string{true: "the bare array / record", false: "the wrapper object"}[sc.want]))
+	}
+}
+
+// c07DeclaredTypesClosed — R07n. Both TS plugins declare exactly the messages and enums tscommon.MessageSet collects.
+// AddMessage is interpreted on a concrete message that reaches an enum through every kind of edge — a plain field, a
+// repeated field, the value of a map, a field of a map's value message, a field of a nested message field — and the
+// collected sets must contain every enum and every non-synthetic message: a type that is printed (Record<string, Color>)
+// but not collected has no declaration in the module.
+func c07DeclaredTypesClosed(c *Ctx, rid string) {
+	r := c.R
+	fn := c.P.Func("internal/tscommon", "MessageSet.AddMessage")
+	if fn == nil {
+		r.Unres(rid, "tscommon.MessageSet.AddMessage", "", "not found")
+		return
+	}
+	pos := c.P.Pos(c.P.Decls[fn].Pos())
+	prev := c.W.Concrete
+	c.W.Concrete = true
+	defer func() { c.W.Concrete = prev }()
+	enumField := func(name string, e *VStruct) *cField {
+		f := fld(name, "enum")
+		f.val().Fields["Enum"] = e
+		return f
+	}
+	mapOf := func(name string, value *cField) *cField {
+		entry := cMessage(strings.Title(snakeToCamelJSON(name))+"Entry", fld("key", "string"), value)
+		entry.Fields["Desc"].(*VStruct).Fields["IsMapEntry()"] = VBool{B: true}
+		f := fld(name, "message").msg(entry)
+		f.Map = true
+		return f
+	}
+	mk := func(n string) *VStruct { return cEnum(n, "pkg."+n, cEnumValue{n + "_ZERO", ""}, cEnumValue{n + "_ONE", ""}) }
+	plain, rep, mapVal, inMapMsg, inNested := mk("PlainE"), mk("RepE"), mk("MapValE"), mk("InMapMsgE"), mk("InNestedE")
+	mapMsg := cMessage("MapMsg", fld("n", "string"), enumField("e", inMapMsg))
+	nested := cMessage("Nested", enumField("e", inNested))
+	holder := cMessage("Holder",
+		enumField("plain", plain),
+		enumField("rep", rep).list(),
+		mapOf("roles", enumField("value", mapVal)),
+		mapOf("items", fld("value", "message").msg(mapMsg)),
+		fld("nested", "message").msg(nested))
+	cdescID--
+	msgs := &VStruct{Name: "map", Fields: map[string]Val{}, id: cdescID, Concrete: true}
+	cdescID--
+	enums := &VStruct{Name: "map", Fields: map[string]Val{}, id: cdescID, Concrete: true}
+	ms := cstruct("MessageSet", map[string]Val{"messages": msgs, "enums": enums, "order": VList{Key: "order", Elems: []Val{}}})
+	run := c.W.NewRun(map[string]int{}, false)
+	run.InlineAll, run.FollowSlices = true, true
+	run.CallHook = c.cdescHook
+	run.StartArgs(fn, map[string]Val{"ms": ms, "msg": holder})
+	if len(run.Used) > 0 || len(run.Problems) > 0 || run.Aborted != "" {
+		r.Undec(rid, "MessageSet.AddMessage on the scenario message", pos, fmt.Sprintf("interpretation left decisions open: %v %v aborted %q", usedKeys(run), run.Problems, run.Aborted))
+		return
+	}
+	got := map[string]bool{}
+	for _, m := range []*VStruct{msgs, enums} {
+		for _, k := range m.Keys {
+			got[valText(k)] = true
+		}
+	}
+	for _, w := range []struct{ name, via string }{
+		{"pkg.Holder", "the message itself"}, {"pkg.MapMsg", "the value message of a map field"}, {"pkg.Nested", "a message field"},
+		{"pkg.PlainE", "a plain enum field"}, {"pkg.RepE", "a repeated enum field"}, {"pkg.MapValE", "the enum value of a map field"},
+		{"pkg.InMapMsgE", "an enum field of a map's value message"}, {"pkg.InNestedE", "an enum field of a nested message field"},
+	} {
+		r.Check(got[w.name], rid, "the TS type collector reaches "+w.via, pos,
+			fmt.Sprintf("MessageSet.AddMessage(Holder) collects %v but not %s, reached through %s: both TS plugins print the type's name in a property type and never declare it", sortedKeys(got), w.name, w.via))
+	}
+	for k := range got {
+		if strings.HasSuffix(k, "Entry") {
+			r.Bad(rid, "synthetic map entries are not declared", pos, "MessageSet.AddMessage collects the synthetic map entry "+k+" as a message to declare", nil)
+		}
 	}
 }
